@@ -5,20 +5,25 @@ _wr = "rtps::writer::verif_harness_writer"
 _W = ("real Writer: reader 1 reliable with ANY acknowledged-before value, reader 2 as stated; WaitForAcknowledgments command through the real "
       "command channel; then one symbolic event (acknowledgment with any base from reader 1/2 delivered to update_ack_waiters — the first thing Writer::handle_ack_nack does with an ACKNACK — or loss of reader 1/2 through reader_lost): success token sent exactly when every "
       "reliable reader matched at the call has acked everything written before the call or was lost; at once if already true; at most once")
+_A = ("real Writer: reader 1 reliable with ANY acknowledged-before value, reader 2 as stated; WaitForAcknowledgments through process_writer_command: success token sent in the same call iff no reliable reader "
+      "still has to acknowledge a sample written before the call; otherwise the installed waiter awaits exactly the pending readers and the last written SN")
 PROP = {
-    "ready": False,
     "title": "wait_for_acknowledgments tells the truth",
     "design_ref": "DESIGN.md section 3, C20",
     "inject": dict(ENV_INJECT, **{"src/rtps/writer.rs": ["writer"], "src/structure/sequence_number.rs": ["seqnum"]}),
     "shim_files": RTPS_SHIM_FILES,
-    "cap": {"quick": 4, "thorough": 6},
+    "cap": {"quick": 2, "thorough": 2},  # <= 2 readers / samples; lets the Writer-object harnesses run with unwind 3
+    "sn_window": {"quick": 2, "thorough": 2},
     "harnesses": [
-        H("c20_wait_w2_one_reliable", _wr, _W, "2 samples written, reader 2 absent"),
-        H("c20_wait_w2_reliable_besteffort", _wr, _W, "2 samples, reader 2 best-effort"),
-        H("c20_wait_w2_two_reliable", _wr, _W, "2 samples, reader 2 reliable with any acked-before", timeout=900),
-        H("c20_wait_w0_one_reliable", _wr, _W, "nothing written, reader 2 absent"),
-        H("c20_wait_w1_two_reliable", _wr, _W, "1 sample, two reliable readers", tier="thorough", timeout=1800),
-        H("c20_wait_w2_one_reliable_full_acknack_path", _wr, _W + " — here the ACKNACK goes through the whole Writer::handle_ack_nack", "2 samples, reader 2 absent", tier="thorough", timeout=2400),
+        H("c20_waitcmd_w2_one_reliable", _wr, _A, "2 samples written, reader 2 absent", tier="thorough", timeout=2400),
+        H("c20_waitcmd_w2_reliable_besteffort", _wr, _A, "2 samples, reader 2 best-effort", tier="thorough", timeout=2400),
+        H("c20_waitcmd_w2_two_reliable", _wr, _A, "2 samples, two reliable readers, both acked-before symbolic", tier="thorough", timeout=2400),
+        H("c20_waitcmd_w0_one_reliable", _wr, _A, "nothing written, reader 2 absent", tier="thorough", timeout=2400),
+        H("c20_waitcmd_w0_two_reliable", _wr, _A, "nothing written, two reliable readers", tier="thorough", timeout=1800),
+        H("c20_waiter_step", _wr, "real AckWaiter, ANY pending subset of {reader 1, reader 2}, any awaited SN: one acknowledgment (any base) or loss of reader 1/2/a stranger completes the wait iff nobody is pending afterwards; strict boundary base > awaited SN", "awaited SN 0..3, base 0..5"),
+        H("c20_wait_then_acknack_base", _wr, "real Writer end to end: reader pending after the wait command, ACKNACK with ANY base through the whole Writer::handle_ack_nack completes exactly when base > last written, at most once", "2 samples, base 0..4", tier="thorough", timeout=2400),
+        H("c20_wait_then_event_w2_one_reliable", _wr, _W, "2 samples written, reader 2 absent", tier="thorough", timeout=2400),
+        H("c20_wait_then_event_w2_two_reliable", _wr, _W, "2 samples, two reliable readers", tier="thorough", timeout=2400),
     ],
     "bounds": {"unwind": 7, "written": "0..2 samples", "readers": "<= 2", "events_after_wait": 1},
     "outside": ["the synchronous API's mio::Poll wait and its timeout (epoll is FFI)", "the async future's waker registration (needs a DataWriter object)", "a second wait issued while one is pending"],
@@ -27,5 +32,5 @@ PROP = {
     "explanation": "C20: real Writer object, WaitForAcknowledgments arm of process_writer_command, update_ack_waiters.",
     "technique": "Kani/CBMC bounded symbolic model checking of the real Writer object (process_writer_command, handle_ack_nack, reader_lost) with environment stubs",
     "level_text": "SAT-solver verdict over all acknowledgment states and one following event inside the stated bounds.",
-    "level_note": "Trusted: Kani/CBMC/CaDiCaL, container shim, environment stubs listed in evidence. Sync timeout and async waker clauses are outside.",
+    "level_note": "QUICK TIER DECIDES ONLY THE WAITER KERNEL (AckWaiter::reader_acked_or_lost from any pending set). The Writer-object harnesses (wait command arm of process_writer_command, end-to-end ACKNACK) are listed in the thorough tier but did not finish under 14 GB on this box: the real code drops the completion channel's sender there, and the drop glue of std's mpmc channel / io::Error explodes CBMC's symbolic execution; they are reported as UNDECIDED in evidence when they do not finish. Sync timeout and async waker clauses are outside.",
 }
